@@ -339,6 +339,7 @@ func runC17(c *fw.Ctx) {
 			// in half of the cases the child first changes the state locally (deletes a readable path) and then syncs back to
 			// the root from a complete donor: the nodes its own delete had dropped come back with the sync
 			syncDonor, ssnap := donor, dsnap
+			localDelete, localFailed := "none", false
 			if r.Intn(2) == 0 {
 				var cand []string
 				for _, p := range lab.SortedKeys(mdl) {
@@ -348,7 +349,10 @@ func runC17(c *fw.Ctx) {
 				}
 				if len(cand) > 0 {
 					lp := cand[r.Intn(len(cand))]
-					if _, derr := Cc.Delete(util.Path(lp)); derr == nil {
+					_, derr := Cc.Delete(util.Path(lp))
+					localDelete = fmt.Sprintf("%q -> %v", lp, derr)
+					localFailed = derr != nil
+					if derr == nil {
 						syncDonor = util.NewMemoryNodeDB()
 						for _, n := range nodes {
 							_ = syncDonor.PutNode(n.Key, n.Node)
@@ -361,6 +365,21 @@ func runC17(c *fw.Ctx) {
 			if err := Cc.MergeDB(syncDonor, root, nil); err != nil {
 				fail("MergeDB on a child trie failed: %v", err)
 			} else {
+				// what the synced trie now reports as deleted must not be reachable from its root (a save with deletes, a
+				// dead-node record or the parent merge below would otherwise drop live nodes)
+				rn, _ := lab.Walk(Cc.GetNodeDB(), Cc.GetRoot())
+				live := map[string]bool{}
+				for _, n := range rn {
+					live[string(n.Key)] = true
+				}
+				for _, d := range Cc.GetDeletes() {
+					// (a local delete that failed on the damaged trie - it needed an absent sibling - leaves the trie in a state
+					// no property speaks about: not judged)
+					if live[string(d.GetHashBytes())] && !localFailed {
+						fail("after the sync (local delete before it: %s) the trie reports node %x as deleted although it is reachable from its root", localDelete, d.GetHashBytes())
+						break
+					}
+				}
 				extra := g.Pick(lab.SortedKeys(mdl)) + "0f"
 				want := lab.CopyContent(mdl)
 				if _, err := Cc.Insert(util.Path(extra), &lab.Val{B: []byte("after-repair")}); err == nil {
